@@ -267,11 +267,11 @@ def check(run):
              "with copy=False, and has the documented literal defaults", floor=60)
     run.rule("R17.4", "copy()/astype() return tensors detached from any graph", floor=5)
     run.rule("R17.5", "= R10.1 dtype gate of Tensor.__init__ while tracking", floor=5)
-    r17_1(run)
-    r17_2(run)
-    r17_3(run)
-    r17_4(run)
+    run.do(r17_1)
+    run.do(r17_2)
+    run.do(r17_3)
+    run.do(r17_4)
     before = len(run.obligations)
-    c10.r10_1(run)
+    run.do(c10.r10_1)
     for o in run.obligations[before:]:
         o.rule = "R17.5"
